@@ -45,6 +45,16 @@ VF_E bool v_gt(V const& a, V const& b) { return a > b; }
 VF_E bool v_ge(V const& a, V const& b) { return a >= b; }
 VF_E size_type v_erase_value(V& v, int const& x) { return etl::erase(v, x); }
 VF_E size_type v_erase_if(V& v) { return etl::erase_if(v, is_mult3{}); }
+// heterogeneous value ([vector.erasure]: elements e with e == value, compared in the common type, are removed)
+VF_E size_type v_erase_value_ll(V& v, long long const& x) { return etl::erase(v, x); }
+VF_E size_type v_erase_value_u(V& v, unsigned const& x) { return etl::erase(v, x); }
+VF_E size_type v_erase_value_d(V& v, double const& x) { return etl::erase(v, x); }
+// a floating-point element type: equality is value equality (+0 == -0, NaN != NaN), not bit equality
+using VD = etl::static_vector<double, VF_N>;
+VF_E bool vd_eq(VD const& a, VD const& b) { return a == b; }
+VF_E bool vd_ne(VD const& a, VD const& b) { return a != b; }
+VF_E bool vd_lt(VD const& a, VD const& b) { return a < b; }
+VF_E size_type vd_erase_value(VD& v, double const& x) { return etl::erase(v, x); }
 VF_E int* v_front(V& v) { return &v.front(); }
 VF_E int* v_back(V& v) { return &v.back(); }
 VF_E int* v_index(V& v, size_type i) { return &v[i]; }
